@@ -52,8 +52,14 @@ def cases(tier):
     return out
 
 
-def check_case(acc, name, spec, idx, k, tier):
+def check_case(acc, name, spec, idx, k, tier, presolve=False):
     problem = S.build(spec)
+    if presolve:
+        # the original has already been given to a solver (and solved) before it is split
+        from nucs.solvers.backtrack_solver import BacktrackSolver as _BS
+
+        _BS(problem, log_level="ERROR").find_all()
+        name = name + "+presolved"
     before = problem_fields(problem)
     try:
         parts = problem.split(k, idx)
@@ -129,6 +135,7 @@ def unit(u):
     acc = Acc()
     for name, spec, idx, k in chunk:
         check_case(acc, name, spec, idx, k, tier)
+        check_case(acc, name, spec, idx, k, tier, presolve=True)
     return acc
 
 
@@ -144,7 +151,7 @@ def run(tier, seed):
         "traces_validated_against_impl": acc.c["splits"],
         "evaluations": acc.c["splits"],
         "distinct_nontrivial": acc.c["nt_real_splits"],
-        "rule": "state = one (domain [a,b], k, variable position/sharing layout, constraints) call of the real Problem.split; "
+        "rule": "state = one (domain [a,b], k, variable position/sharing layout, constraints, original already solved or not) call of the real Problem.split; "
                 "oracle = partition laws on the parts, deep comparison of original and sub-problems, find_all of every real "
                 "sub-problem vs brute force; non-trivial = k >= 2 on a domain of >= 2 values",
         "exhaustive": True,
@@ -161,6 +168,7 @@ def replay(entry):
         for _ in range(2):
             acc = Acc()
             check_case(acc, "replay", w["spec"], w["idx"], w["k"], "quick")
+            check_case(acc, "replay", w["spec"], w["idx"], w["k"], "quick", presolve=True)
             print("replay:", w, "->", list(acc.viol) or "no violation")
             rc = rc or (1 if acc.viol else 0)
     return rc
